@@ -68,6 +68,12 @@ func oncedone(o any) bool           { return false }
 
 //   nevents(kind)/eventref[T](kind, i): ghost event log (kind "call": calls through a field declared `logged`)
 func nevents(kind string) int              { return 0 }
+
+// same(a, b): component-wise identity of two values of the same type
+func same(a, b any) bool { return true }
+
+// ctxtimeout(ctx): the duration ctx was created with by context.WithTimeout
+func ctxtimeout(ctx context.Context) time.Duration { return 0 }
 func eventref[T any](kind string, i int) (t T) { return }
 
 // allocated(p): p points to an object that exists (was allocated earlier)
@@ -586,6 +592,7 @@ func wireGrew2(oldLen int, b0, b1 uint8) bool {
 //@   ensures fresh(g) && ginv(g) && g.cfg == cfg && g.recvSeq == 0 && cap(g.recvDataChan) == int(cfg.n)
 //@   ensures g.pingTicker == nil && g.pongTicker == nil && g.resendTicker == nil
 //@   ensures !closed(g.quit) && !closed(g.remoteClosed) && !closed(g.sendQueue.quit)
+//@   ensures !isnil(g.cancel) && !oncedone(&g.closeOnce)
 
 //@ func (g *GoBackNConn) serverHandshake() (err error)
 //@   props C07 C10 C12
@@ -594,9 +601,12 @@ func wireGrew2(oldLen int, b0, b1 uint8) bool {
 //@   loop 0 invariant ginv(g) && g.recvSeq == 0 && g.sendQueue == old(g.sendQueue) && implies(resent, 1 <= n && n <= 254)
 //@   loop 0 invariant wirelen() >= old(wirelen())
 //@   loop 0 invariant @C10 implies(resent, wirelen() >= old(wirelen())+2 && wirebyte(wirelen()-2) == SYN && wirebyte(wirelen()-1) == n)
+//@   loop 0 step @C10 implies(old(resent), !is[*PacketSYNACK](msg) && !is[*PacketData](msg))
 //@   label recvClientSYN invariant ginv(g) && g.recvSeq == 0 && g.sendQueue == old(g.sendQueue) && is[*PacketSYN](msg) && as[*PacketSYN](msg) != nil
 //@   label recvClientSYN invariant wirelen() >= old(wirelen())
 //@   ensures ginv(g)
+//@   ensures g.pingTicker == old(g.pingTicker) && g.pongTicker == old(g.pongTicker) && g.resendTicker == old(g.resendTicker) && same(g.cancel, old(g.cancel))
+//@   ensures oncedone(&g.closeOnce) == old(oncedone(&g.closeOnce))
 //@   ensures @C10 implies(g.sendQueue != old(g.sendQueue), wirelen() >= old(wirelen())+2 &&
 //@           wirebyte(wirelen()-2) == SYN && wirebyte(wirelen()-1) == g.cfg.n)
 //@   ensures @C10 implies(g.sendQueue == old(g.sendQueue), g.cfg.n == old(g.cfg.n))
@@ -610,6 +620,8 @@ func wireGrew2(oldLen int, b0, b1 uint8) bool {
 //@          wirebyte(wirelen()-2) == SYN && wirebyte(wirelen()-1) == g.cfg.n
 //@   at "synack, err := new(PacketSYNACK).Serialize()" assert @C10 respSYN != nil && respSYN.N == g.cfg.n
 //@   ensures ginv(g) && g.cfg.n == old(g.cfg.n)
+//@   ensures g.pingTicker == old(g.pingTicker) && g.pongTicker == old(g.pongTicker) && g.resendTicker == old(g.resendTicker) && same(g.cancel, old(g.cancel))
+//@   ensures oncedone(&g.closeOnce) == old(oncedone(&g.closeOnce))
 //@   ensures @C10 implies(err == nil && !closed(g.quit) && wirelen() > old(wirelen()), wirebyte(wirelen()-1) == SYNACK || wirebyte(wirelen()-2) == SYN)
 
 //@ func (t *IntervalAwareForceTicker) Reset()
@@ -763,6 +775,7 @@ func gopen(g *GoBackNConn) bool {
 //@   acquires TimeoutManager.mu, TimeoutBooster.mu
 //@   role start
 //@   requires ginv(g) && g.pingTicker == nil && g.pongTicker == nil && g.resendTicker == nil && !isnil(g.cancel)
+//@   modifies g.pingTicker, g.pongTicker, g.resendTicker, events("*")
 //@   noframe
 //@   ensures ginv(g)
 //@   ensures tkinv(g.pingTicker) && tkinv(g.pongTicker) && g.pingTicker != g.pongTicker
@@ -779,8 +792,10 @@ func gopen(g *GoBackNConn) bool {
 //@   role close
 //@   requires ginv(g) && !isnil(g.cancel) && iff(oncedone(&g.closeOnce), closed(g.quit)) && iff(oncedone(&g.closeOnce), closed(g.sendQueue.quit))
 //@   requires (g.pingTicker == nil && g.pongTicker == nil && g.resendTicker == nil) || gstarted(g)
+//@   modifies g.closeOnce, events("*"), chanstate(g.quit), chanstate(g.sendQueue.quit), chanstate(g.pingTicker.quit), chanstate(g.pongTicker.quit), wire()
 //@   noframe
 //@   ensures err == nil && oncedone(&g.closeOnce)
+//@   at "err := g.sendPacket(ctxc" assert @C12 ctxtimeout(ctxc) == g.timeoutManager.finSendTimeout
 //@   ensures @C12 closed(g.quit) && closed(g.sendQueue.quit)
 //@   ensures @C12 implies(old(oncedone(&g.closeOnce)), wirelen() == old(wirelen()) && nevents("call.GoBackNConn.cancel") == old(nevents("call.GoBackNConn.cancel")))
 //@   ensures @C12 implies(!old(oncedone(&g.closeOnce)) && !old(closed(g.remoteClosed)), wirelen() == old(wirelen())+1 && wirebyte(old(wirelen())) == FIN)
@@ -805,6 +820,33 @@ func VerifConnUsable(g *GoBackNConn) bool {
 //@   modifies wire(), events("*"), chanlog[struct{}](), chanlog[time.Time](), chanlog[[]byte](), chanlog[int](), chanlog[error]()
 //@   ensures implies(err == nil, fresh(conn) && VerifConnUsable(conn))
 //@   ensures implies(err != nil, conn == nil)
+
+// verifNewServerConn / verifNewClientConn: the constructors without options
+// (the effect of the option functions, which are opaque function values, is
+// the trusted part of the two contracts around them).
+func verifNewServerConn(ctx context.Context, sendFunc sendBytesFunc, recvFunc recvBytesFunc) (conn *GoBackNConn, err error) {
+	return NewServerConn(ctx, sendFunc, recvFunc)
+}
+
+//@ func verifNewServerConn(ctx context.Context, sendFunc sendBytesFunc, recvFunc recvBytesFunc) (conn *GoBackNConn, err error)
+//@   props C10 C07
+//@   unfolds NewServerConn
+//@   noframe
+//@   requires !isnil(ctx) && !isnil(sendFunc) && !isnil(recvFunc)
+//@   ensures @C10 (err == nil) == (conn != nil)
+//@   ensures @C10 implies(err == nil, fresh(conn) && ginv(conn) && gstarted(conn))
+
+func verifNewClientConn(ctx context.Context, n uint8, sendFunc sendBytesFunc, recvFunc recvBytesFunc) (conn *GoBackNConn, err error) {
+	return NewClientConn(ctx, n, sendFunc, recvFunc)
+}
+
+//@ func verifNewClientConn(ctx context.Context, n uint8, sendFunc sendBytesFunc, recvFunc recvBytesFunc) (conn *GoBackNConn, err error)
+//@   props C10 C07
+//@   unfolds NewClientConn
+//@   noframe
+//@   requires !isnil(ctx) && !isnil(sendFunc) && !isnil(recvFunc) && n >= 1
+//@   ensures @C10 (err == nil) == (conn != nil)
+//@   ensures @C10 implies(err == nil, fresh(conn) && ginv(conn) && gstarted(conn) && conn.cfg.n == n)
 
 //@ func NewServerConn(ctx context.Context, sendFunc sendBytesFunc, recvFunc recvBytesFunc, opts ...Option) (conn *GoBackNConn, err error)
 //@   props C15 C17 C11
@@ -849,7 +891,7 @@ func chunkEnd(data []byte, first, n int) int {
 }
 
 //@ func (g *GoBackNConn) Send(data []byte) (err error)
-//@   props C14 C12 C18 C15
+//@   props C14 C12 C18 C15 C01
 //@   modifies chanlog[*PacketData](), chanlog[struct{}](), chanlog[time.Time](), events("*")
 //@   acquires TimeoutManager.mu
 //@   requires g != nil && g.cfg != nil && tminv(g.timeoutManager) && g.cfg.maxChunkSize >= 0
@@ -861,7 +903,7 @@ func chunkEnd(data []byte, first, n int) int {
 //@   loop 0 invariant forall(old(nsent[*PacketData]()), nsent[*PacketData](), func(i int) bool { return chunkChain(data, old(nsent[*PacketData]()), i) })
 //@   loop 0 invariant forall(old(nsent[*PacketData]()), nsent[*PacketData](), func(i int) bool {
 //@          return sentval[*PacketData](i).FinalChunk == (i == nsent[*PacketData]()-1 && sentBytes == len(data)) })
-//@   ensures @C14 implies(err == nil, nsent[*PacketData]() >= old(nsent[*PacketData]())+1 && sentval[*PacketData](nsent[*PacketData]()-1).FinalChunk &&
+//@   ensures @C14,C01 implies(err == nil, nsent[*PacketData]() >= old(nsent[*PacketData]())+1 && sentval[*PacketData](nsent[*PacketData]()-1).FinalChunk &&
 //@           chunkEnd(data, old(nsent[*PacketData]()), nsent[*PacketData]()) == len(data))
 //@   ensures @C14 implies(err == nil && g.cfg.maxChunkSize > 0 && len(data) > 0, forall(old(nsent[*PacketData]()), nsent[*PacketData](), func(i int) bool {
 //@           return chunkSent(g, i) && chunkSize(data, i, g.cfg.maxChunkSize) }))
